@@ -716,6 +716,10 @@ func init() {
 					{[]string{"www.example.com", "www.example.com.", "www.example.com%2E", "www.example.com%2e", "www.example.com..", "www.example.com.%2E", "www.example.com%2E%2e", ".www.example.com", "%2Ewww.example.com", "www..example.com", "www.%2Eexample.com", "www%2E%2Eexample.com", "www%2Eexample%2ecom", "WWW.Example.COM%2E"}},
 					{[]string{"a-1.b", "a-1.b.", "a-1%2Eb", "a-1%2eb%2E", "A-1..B", "%2e%2Ea-1.b"}},
 					{[]string{"1.2.3.4", "1.2.3.4.", "1.2.3.4%2E", "1%2E2.3.4", "1.2.3%2e4%2E", "1..2.3.4"}},
+					// letters, digits and dots of the host escaped once or several times (the profiles parse hosts laxly and decode them
+					// repeatedly): the same host
+					{[]string{"www.example.com", "www.ex%61mple.com", "www.ex%2561mple.com", "w%2577w.example.c%25256fm", "www%252Eexample.com", "WWW.EX%2541MPLE.com"}},
+					{[]string{"192.168.0.1", "%3192.168.0.1", "%253192.168.0.1", "192.%2531%2536%2538.0.1", "192.16%252538.0.1", "192.168.0.%2531", "192.168%252E0.1"}},
 				}
 				rests := []string{"/a/b?k=v", "", ":80/", "/#"}
 				profs := []*Prof{predefinedProfiles[2], predefinedProfiles[3]}
@@ -831,6 +835,38 @@ func init() {
 					}
 				}
 				exts = append(exts, comb(0, 1, 2, 3, 4, 5))
+			}
+			// the setters run the same parser: a setter value that does not trigger an option gives, on a URL of the parser with
+			// the option, what it gives on a URL of the default parser (the value at the END of the text, where look-ahead code is
+			// most easily off by one, included)
+			{
+				vals := []string{"us%41", "x%2F", "%41", "a%2541", "%7e%7E", "p%C3%A9", "a/b/c", "q=%20&r=%26", "h.example", "EXAMPLE.com:81", "1.2.3.4", "/a/b/", "frag%23", "", "a b", "é", "/..//x%2E"}
+				rng2 := NewRng(c.Seed ^ 0x5e7)
+				c.Pool.Run(len(exts[:6])*len(vals)*4, func(d *Driver, i int) {
+					r := rng2.Fork(i)
+					e := exts[i%6]
+					v := vals[i/6%len(vals)]
+					st := r.Pick([]string{"http://u:p@h.example:8080/a/b?q=1#f", "sc://h/p?q#f", "file:///C:/x", "https://h/", "sc:opaque?q"})
+					if e.trigger(nil, v, Obs{Kind: "U"}) || e.trigger(nil, st, Obs{Kind: "U"}) || e.cfg.Desc == "lax" {
+						return
+					}
+					w := []int{1, 2, 3, 4, 6, 7, 8}[i/(6*len(vals))%7]
+					ops := []Op{{K: "s", W: w, A: v}}
+					_, s1, o1 := c.cmpHist(d, e.cfg, nil, st, ops, allButVerrs, "setter-neutral:"+e.cfg.Desc, i)
+					u0, err := implParseURL(defaultCfg.Parser, nil, st)
+					if err != nil || u0 == nil || o1.Kind != "U" || len(s1) != 1 {
+						return
+					}
+					applySetter(u0, w, v)
+					want := urlFields(u0)
+					for _, f := range urlFieldsOnly {
+						if len(s1[0].A) == nFields && s1[0].A[f] != want[f] {
+							c.Report(Finding{Class: "violation", What: fmt.Sprintf("option %s changes %s(%q) on %q although the value does not trigger it: %s is %q, without the option %q", e.cfg.Desc, setterNames[w], v, st, fieldNames[f], s1[0].A[f], want[f]),
+								Case: Case{Kind: "hist", Cfg: e.cfg.Desc, Input: st, Ops: []string{ops[0].String()}, Family: "setter-neutral:" + e.cfg.Desc, Index: i}})
+							return
+						}
+					}
+				})
 			}
 			// the removal options against the standard itself: the extracted Spec's parser followed by the Spec's setter steps
 			sdp := &specPool{}
